@@ -81,6 +81,7 @@ class World:
         self.convention = None
         self.saw_formula = None
         self.runs = 0
+        self.early_exit = False
 
     # ---- tempfile / os / open
     def NamedTemporaryFile(self, delete=True, **kw):
@@ -187,9 +188,78 @@ class _FakeSubprocess:
         return _Proc(w, list(args))
 
 
+class _PipeToSolver:
+    """the solver's standard input as a pipe: what is written is collected; a solver that has already answered and left
+    (it read an empty clause and needs no more) closes its end, and a writer that goes on past the pipe buffer gets
+    BrokenPipeError - the model buffer is PIPE_BUFFER bytes"""
+    PIPE_BUFFER = 64
+
+    def __init__(self, proc):
+        self.proc, self.data, self.closed = proc, b'', False
+
+    def write(self, chunk):
+        if isinstance(chunk, str):
+            chunk = chunk.encode('ascii')
+        self.data += chunk
+        if self.proc.w.early_exit and len(self.data) > self.PIPE_BUFFER and b'\n0\n' in self.data[:self.PIPE_BUFFER]:
+            raise BrokenPipeError(32, 'Broken pipe')
+        return len(chunk)
+
+    def flush(self):
+        pass
+
+    def close(self):
+        self.closed = True
+
+    def writable(self):
+        return True
+
+    def readable(self):
+        return False
+
+    def seekable(self):
+        return False
+
+
+class _PipeFromSolver:
+    def __init__(self, proc):
+        self.proc, self.done = proc, False
+
+    def read(self, *a):
+        if self.done:
+            return b''
+        self.done = True
+        return self.proc.communicate(self.proc.stdin.data)[0]
+
+    def close(self):
+        pass
+
+
 class _Proc:
+    returncode = 0
+
     def __init__(self, w, args):
         self.w, self.args = w, args
+        self.stdin = _PipeToSolver(self)
+        self.stdout = _PipeFromSolver(self)
+        self.stderr = None
+
+    def wait(self, timeout=None):
+        return 0
+
+    def poll(self):
+        return 0
+
+    def kill(self):
+        pass
+
+    terminate = kill
+
+    def __enter__(self):
+        return self
+
+    def __exit__(self, *a):
+        return False
 
     def communicate(self, input=None):
         w = self.w
@@ -434,6 +504,40 @@ def h_e_parse_10(iface: int, verdict: int, bits: int, layout: int, comments: boo
     """
     return untraced(_bridge, 10, IFACE[pick(iface, 0, 2)], 0, True, pick(verdict, 0, 3), pick(bits, 0, 7), pick(layout, 0, 2),
                     pickb(comments), pickb(trailing_zero), False, pick(api, 0, 1))
+
+
+def _early_exit(solver_i, api, pad):
+    """a stdin/stdout solver that answers UNSATISFIABLE as soon as it has read an empty clause and exits without reading the
+    rest (the formula is longer than the pipe buffer of the model): the verdict is still reported"""
+    n = 3
+    clauses = [[1, 2], []] + [[1, -2, 3], [-1, 2], [3], [-3, 1]] * (2 + pad)
+    name = STDIN_SOLVERS[solver_i]
+    w = World(n, [list(c) for c in clauses], {name}, 1, [False] * n, 0, False, False, False, None)
+    w.early_exit = True
+    F = CNF([list(c) for c in clauses])
+    F.update_variable_number(n)
+    saved = (S.subprocess, S.tempfile, S.os, getattr(S, 'open', None))
+    S.subprocess, S.tempfile, S.os, S.open = _FakeSubprocess(w), _FakeTempfile(w), _FakeOs(w), w.open
+    try:
+        try:
+            res = F.solve(cmd=name) if api == 0 else F.is_satisfiable(cmd=name)
+        except (RuntimeError, ValueError, TypeError):
+            return False
+    finally:
+        S.subprocess, S.tempfile, S.os = saved[0], saved[1], saved[2]
+        if saved[3] is None:
+            del S.open
+        else:
+            S.open = saved[3]
+    return res == ((False, None) if api == 0 else False) and not w.files
+
+
+def h_e_early_exit(solver_i: int, api: int, pad: int) -> bool:
+    """
+    pre: 0 <= solver_i <= 6 and 0 <= api <= 1 and 0 <= pad <= 2
+    post: _
+    """
+    return untraced(_early_exit, pick(solver_i, 0, 6), pick(api, 0, 1), pick(pad, 0, 2))
 
 
 def _auto_set(first, more):
